@@ -77,6 +77,7 @@ type seen struct {
 }
 
 type observer struct {
+	sampleMu sync.Mutex
 	mu       sync.Mutex
 	notifs   [][]seen // per connection, in write order
 	samples  []seen   // DataCopy samples, only changes are stored
@@ -133,6 +134,11 @@ func (o *observer) onWrite(conn int, raw []byte) {
 }
 
 func (o *observer) sample(f api.FeatureLocalInterface) seen {
+	// two goroutines sample (the 10 ms sampler and the history runner): read and append must be
+	// one critical section, otherwise an older read can be appended after a newer one and look
+	// like a decreasing counter
+	o.sampleMu.Lock()
+	defer o.sampleMu.Unlock()
 	v := f.DataCopy(fnHeartbeat)
 	s := seen{Conn: -1, At: time.Now(), Text: "null"}
 	if d, ok := v.(*model.DeviceDiagnosisHeartbeatDataType); ok && d != nil {
